@@ -81,6 +81,13 @@ fn check_exact(c: &GenCase, obs: &mut Obs) -> Result<(), String> {
         }
         nontrivial |= own.len() >= 2;
     }
+    // iterator protocol: nth / skip / step_by / take / last / count agree with repeated next(), counters included
+    let total: usize = got.values().map(|v| v.len()).sum();
+    if total <= 3000 {
+        let (dim, n) = (c.dim, c.max_size);
+        crate::util::iter_protocol(|| DSets::new(dim, n), |s| format!("{}", s), 24, &format!("DSets::new({}, {})", dim, n))?;
+        obs.classify(total >= 4, "iterator protocol on >= 4 items");
+    }
     obs.nontrivial(nontrivial);
     obs.class(&format!("dim {}", c.dim));
     Ok(())
